@@ -140,7 +140,7 @@ def check_codelen(path, uniq, kind, data, stats):
     return probs
 
 
-def check_matches(path, allf, matches, stats):
+def check_matches(path, allf, matches, stats, kind=None, data=None):
     probs = []
     rows = read_table(path)
     if len(rows) != len(allf):
@@ -149,6 +149,18 @@ def check_matches(path, allf, matches, stats):
         if int(row[2]) != matches[i]:
             probs.append(('match-column', i, row[2], matches[i]))
             break
+    if kind is not None and not probs:
+        # row i refers to function i: where a finite code length was assigned, the likelihood of row i is the likelihood of
+        # function i at the parameters of row i (whether or not parameters were set to zero on the way)
+        for i, (row, f) in enumerate(zip(rows, allf)):
+            nll, cl, params = row[0], row[1], row[3:]
+            k = nparams(f)
+            if math.isfinite(nll) and abs(nll) < 1e100 and math.isfinite(cl) and k > 0:
+                ok, m = agrees(nll, kind, data, f, params[:k])
+                stats['match_rows_checked'] = stats.get('match_rows_checked', 0) + 1
+                if not ok:
+                    probs.append(('nll-mismatch', 'matches', i, f, nll, m))
+                    break
     return probs
 
 
